@@ -59,7 +59,7 @@ def main():
             cleanup()
             return 2
     r = sh(f"rsync -a --exclude harness/target --exclude out --exclude .git {ROOT}/ {VM}/")
-    if r.returncode != 0:
+    if r.returncode not in (0, 24):  # 24 = files vanished while copying (a concurrent lake build)
         print(r.stdout)
         return 2
     cargo = os.path.join(VM, "harness", "Cargo.toml")
